@@ -1,5 +1,5 @@
 """Correspondence for the source-to-Lean translator (gen/py2lean.py) and its run-time library (lean/Asn1/PyLite.lean):
-the *translation* of a function (driver ops KTAG, KLEN, KTOBYTES, KOIDENC, KOIDDEC, KTIME, KREAL, KREALDEC, KDECLEN, KDECTAG, KOCTCHUNK, KCERBOOL, KWRAP, KINTDEC; PYFROMBYTES) and the function itself in /repo are
+the *translation* of a function (driver ops KTAG, KLEN, KTOBYTES, KOIDENC, KOIDDEC, KTIME, KREAL, KREALDEC, KDECLEN, KDECTAG, KOCTCHUNK, KCRANGE, KCSIZE, KCSINGLE, KCALPHA, KCERBOOL, KWRAP, KINTDEC; PYFROMBYTES) and the function itself in /repo are
 run on the same arguments; the Python builtins PyLite transcribes (PYOP) are compared with CPython.
 
 A disagreement means the translator or PyLite misrepresents the code (machinery fault to repair) - it is reported as a
@@ -47,7 +47,7 @@ def _py(f, *a, **kw):
     return ('ok', r)
 
 
-def check(rep, drv, seed, n=400, which=('encodeTag', 'encodeLength', 'toBytes', 'oidEncode', 'oidDecode', 'timeCanon', 'realBin', 'realDec', 'decodeLength', 'cerBool', 'wrapTags', 'intDecode', 'decodeTag', 'octetChunks')):
+def check(rep, drv, seed, n=400, which=('encodeTag', 'encodeLength', 'toBytes', 'oidEncode', 'oidDecode', 'timeCanon', 'realBin', 'realDec', 'decodeLength', 'cerBool', 'wrapTags', 'intDecode', 'decodeTag', 'octetChunks', 'constraintLeaves')):
     """returns number of cases compared"""
     from pyasn1.codec.ber import encoder as benc, decoder as bdec
     from pyasn1.compat import integer
@@ -408,6 +408,33 @@ def check(rep, drv, seed, n=400, which=('encodeTag', 'encodeLength', 'toBytes', 
                 got = _ints(ans)
                 if got != impl:
                     rep.disagree('KERNEL:octetChunks', ans_line[:300], ans[:300], repr(impl)[:300])
+    if 'constraintLeaves' in which:
+        from pyasn1.type import constraint as pcon
+
+        def verdict(c, *a):
+            # the class's own _testValue (what __call__ runs once it has seen that the constraint has operands)
+            try:
+                c._testValue(*a)
+            except error_.ValueConstraintError:
+                return ('err', 'ValueConstraintError')
+            return ('ok', [])
+        from pyasn1.type import error as error_
+        for i in range(n):
+            lo = rng.choice([0, 1, -5, 10, rnd_int()])
+            hi = lo + rng.choice([0, 1, 5, 255, rnd_nat()])
+            z = rng.choice([lo - 1, lo, lo + 1, hi - 1, hi, hi + 1, rnd_int()])
+            cmp_('rangeTest', 'KCRANGE %d %d %d' % (lo, hi, z), verdict(pcon.ValueRangeConstraint(lo, hi), z, None))
+            slo = rng.choice([0, 1, 2, 5])
+            shi = slo + rng.choice([0, 1, 3, 10])
+            body = bytes(rng.randrange(256) for _ in range(rng.choice([0, 1, 2, 3, 5, 6, 8, 15, 16])))
+            cmp_('sizeTest', 'KCSIZE %d %d %s' % (slo, shi, ' '.join(map(str, body))), verdict(pcon.ValueSizeConstraint(slo, shi), body, None))
+            vals = [rng.choice([0, 1, -1, 5, 255, rnd_int()]) for _ in range(rng.randrange(1, 6))]
+            z = rng.choice(vals + [rnd_int(), 0, 7])
+            cmp_('singleValueTest', 'KCSINGLE %d %s' % (z, ' '.join(map(str, vals))), verdict(pcon.SingleValueConstraint(*vals), z, None))
+            alpha = sorted(set(rng.randrange(256) if rng.random() < 0.3 else rng.choice([65, 66, 67, 97, 98]) for _ in range(rng.randrange(1, 6))))
+            body = bytes(rng.choice(alpha + [rng.choice([65, 66, 67, 68, 97, 0, 255])]) for _ in range(rng.randrange(0, 7)))
+            cmp_('alphabetTest', 'KCALPHA %d %s %s' % (len(alpha), ' '.join(map(str, alpha)), ' '.join(map(str, body))),
+                 verdict(pcon.PermittedAlphabetConstraint(*alpha), body, None))
     if 'cerBool' in which:
         import io as _io2
         from pyasn1.codec.cer import decoder as cdec_
